@@ -1,5 +1,6 @@
 (* Props/C13.v — user coordinates normalise per fvar and avar.  Statements only. *)
 From AV Require Import Base.Prelude Model.Normalize Proofs.NormalizeProofs.
+From AV Require Import Model.Reader Model.FvarTable Proofs.FvarTableProofs.
 From Coq Require Import Sorted.
 Open Scope Z_scope.
 
@@ -100,6 +101,60 @@ Theorem C13_f2dot14_fixed_roundtrip : forall v, -32768 <= v <= 32767 ->
 Proof. exact f2dot14_fixed_roundtrip. Qed.
 Print Assumptions C13_f2dot14_fixed_roundtrip.
 
+
+(* ---- the fvar table as bytes (Model/FvarTable.v): header, axis records axisSize bytes apart,
+   instance records, trailing bytes.  shape_legal: majorVersion 1, axesArrayOffset >= 16,
+   axisSize >= 20 (ANY such value: the record may be extended), axisCount = number of records. *)
+
+(* FvarTable::read + axes(): the strided array yields exactly the records that were written *)
+Theorem C13_fvar_axes_strided : forall m sh axes,
+  shape_legal sh -> len axes < 65536 -> Forall axis4_ok axes ->
+  exists f, fvar_read m (fvar_encode sh axes) = Ok f /\ fvar_axis_count f = len axes /\
+            fvar_axes m f = Ok (map axis4_triple axes).
+Proof. exact fvar_axes_encode. Qed.
+Print Assumptions C13_fvar_axes_strided.
+
+(* FvarTable::normalize on the table bytes is the arithmetic model on those axes, so every theorem
+   above holds for tables of any legal layout *)
+Theorem C13_fvar_bytes_normalize : forall m sh axes coords avar,
+  shape_legal sh -> len axes < 65536 -> Forall axis4_ok axes ->
+  case_normalize m sh axes coords avar = fvar_normalize (map axis4_triple axes) coords avar.
+Proof. exact case_normalize_encode. Qed.
+Print Assumptions C13_fvar_bytes_normalize.
+
+(* and so is the tuple variations::instance returns *)
+Theorem C13_instance_bytes_normalize : forall m sh axes coords avar,
+  shape_legal sh -> len axes < 65536 -> Forall axis4_ok axes ->
+  case_instance m sh axes coords avar = fvar_normalize (map axis4_triple axes) coords avar.
+Proof. exact case_instance_encode. Qed.
+Print Assumptions C13_instance_bytes_normalize.
+
+(* a named instance of the table itself as the user tuple (FvarTable::instances().nth(k), whose
+   coordinate array is handed to normalize): the record is found instanceSize bytes apart, with or
+   without postScriptNameID or further bytes, and normalises like any other tuple *)
+Theorem C13_named_instance_normalize : forall m sh axes k avar,
+  shape_legal sh -> len axes < 65536 -> Forall axis4_ok axes -> 0 <= k < sh_icnt sh ->
+  sh_isz sh = 4 + 4 * len axes \/ 6 + 4 * len axes <= sh_isz sh ->
+  case_named m sh axes k avar = fvar_normalize (map axis4_triple axes) (inst_coords k 0 axes) avar.
+Proof. exact case_named_encode. Qed.
+Print Assumptions C13_named_instance_normalize.
+
+(* wrong length is rejected against the table's axisCount at every entry point, for ANY table bytes *)
+Theorem C13_table_len_rejected : forall m f coords avar,
+  len coords <> fvar_axis_count f -> fvar_normalize_tbl m f coords avar = Err BadValue.
+Proof. exact fvar_normalize_tbl_len. Qed.
+Print Assumptions C13_table_len_rejected.
+
+Theorem C13_instance_len_rejected : forall m b f coords avar,
+  fvar_read m b = Ok f -> len coords <> fvar_axis_count f -> instance_tuple m b coords avar = Err BadValue.
+Proof. exact instance_tuple_len. Qed.
+Print Assumptions C13_instance_len_rejected.
+
+Theorem C13_owned_tuple_len : forall f vals v,
+  fvar_owned_tuple f vals = Some v -> len vals = fvar_axis_count f /\ v = vals.
+Proof. exact owned_tuple_len. Qed.
+Print Assumptions C13_owned_tuple_len.
+
 (* non-vacuity *)
 Example C13_example :
   fvar_normalize [(100 * 65536, 400 * 65536, 900 * 65536); (-2147483648, 0, 2147418112)]
@@ -113,3 +168,25 @@ Proof.
   - repeat (constructor; [|repeat constructor; cbn; lia]). constructor.
   - repeat constructor; cbn; lia.
 Qed.
+
+(* an fvar with axesArrayOffset 18, axisSize 24, two instance records and three trailing bytes *)
+Example C13_strided_example :
+  case_instance Release
+    {| sh_major := 1; sh_off := 18; sh_asz := 24; sh_dcount := 0; sh_icnt := 2; sh_isz := 14; sh_trail := 3 |}
+    [(2003265652, 100 * 65536, 400 * 65536, 900 * 65536); (1769234796, 0, 0, 65536)]
+    [650 * 65536; 32768] None
+  = Ok [8192; 8192].
+Proof. vm_compute. reflexivity. Qed.
+Example C13_strided_too_long :
+  case_instance Release
+    {| sh_major := 1; sh_off := 16; sh_asz := 24; sh_dcount := 0; sh_icnt := 0; sh_isz := 0; sh_trail := 0 |}
+    [(2003265652, 100 * 65536, 400 * 65536, 900 * 65536); (1769234796, 0, 0, 65536)]
+    [650 * 65536; 32768; 5] None
+  = Err BadValue.
+Proof. vm_compute. reflexivity. Qed.
+Example C13_named_example :
+  case_named Release
+    {| sh_major := 1; sh_off := 16; sh_asz := 24; sh_dcount := 0; sh_icnt := 3; sh_isz := 14; sh_trail := 0 |}
+    [(2003265652, 100 * 65536, 400 * 65536, 900 * 65536); (1769234796, 0, 0, 65536)] 2 None
+  = Ok [16384; 8192].
+Proof. vm_compute. reflexivity. Qed.
